@@ -56,7 +56,7 @@ class FieldReader:
 
     def get(self, size, field, mask=None):
         if isinstance(size, (int, int)):
-            value = self.src.read(size)
+            value = self.read_exact(size, field)
             if self.log and self.log.isEnabledFor(logging.DEBUG):
                 self.log.debug('%s: read %s size=%d pos=%d value=0x%s', self.name, field,
                                size, self.src.tell(), value.encode('hex'))
